@@ -30,7 +30,10 @@ HostOK(e) ==
        /\ e.srv = C!Prefix(e.pay, e.n)
 
 \* e = [L, dom, name]: a query the real client put on the wire under hostname limit L
-WireOK(e) == /\ Len(e.name) <= e.L /\ LegalName(e.name) /\ D!Match(e.name, e.dom) >= 1
+\* (the limit is promised for data chunks, fragment-size probes, pings and version / login / set-fragment-size messages;
+\*  the fixed codec-test patterns and the short option / codec-switch / address requests only have to be legal names)
+Limited == {"data", "fragprobe", "ping", "version", "login", "setfrag"}
+WireOK(e) == /\ (e.kind \in Limited => Len(e.name) <= e.L) /\ LegalName(e.name) /\ D!Match(e.name, e.dom) >= 1
 
 HInit == n = 0
 Spec == HInit /\ [][FALSE]_n
